@@ -42,6 +42,7 @@ func main() {
 		list     = flag.Bool("list", false, "list registered properties")
 		describe = flag.Bool("describe", false, "print the registered rule sets as JSON")
 		goos     = flag.String("goos", "", "debug: single GOOS")
+		listFns  = flag.Bool("funcs", false, "debug: list the module's source functions")
 	)
 	flag.Parse()
 
@@ -77,6 +78,24 @@ func main() {
 
 	if *dump != "" {
 		doDump(*dump, *goos)
+		return
+	}
+	if *listFns {
+		p, err := load.Load(load.Config{GOOS: *goos})
+		if err != nil {
+			fmt.Fprintln(os.Stderr, err)
+			os.Exit(2)
+		}
+		var names []string
+		for _, fn := range p.SrcFuncs() {
+			if fn.Parent() == nil {
+				names = append(names, load.FuncName(fn))
+			}
+		}
+		sort.Strings(names)
+		for _, n := range names {
+			fmt.Println(n)
+		}
 		return
 	}
 
